@@ -17,7 +17,7 @@ module memory
   logic [hex_pkg::MEM_WIDTH-1:0] memory_q [hex_pkg::MEM_DEPTH-1:0] /* verilator public */;
 
   always_ff @(posedge i_clk or posedge i_rst)
-    if (i_d_valid && i_d_we) begin
+    if (!i_rst && i_d_valid && i_d_we) begin
       memory_q[i_d_addr] <= i_d_data;
     end
 
